@@ -122,8 +122,16 @@ class _File:
 
 
 class _Stream:
+    """an opened archive member (zipfile.ZipExtFile): readable, and a context manager like the real one"""
+
     def __init__(self, disk, data):
         self.disk, self.data = disk, data
+
+    def __pyvc_enter__(self, interp):
+        return self
+
+    def __pyvc_exit__(self, interp, exc):
+        return False
 
 
 @_model(_bi.open, always=True)
